@@ -13,7 +13,7 @@ if ! (cd "$S/repo" && patch -p1 -s --no-backup-if-mismatch < "$PATCH" >/dev/null
   if [ ! -f "$RB" ] || ! (cd "$S/repo" && patch -p1 -s --no-backup-if-mismatch < "$RB"); then echo "PATCH DID NOT APPLY"; rm -rf "$S"; exit 3; fi
 fi
 [ -x "$V/bin/hclcheck" ] || "$V/check" "$PROP" quick >/dev/null 2>&1
-cp "$V/bin/hclcheck" "$S/hclcheck"
+cp "${HCLCHECK_BIN:-$V/bin/hclcheck}" "$S/hclcheck"
 GOPROXY=off GOWORK=off "$S/hclcheck" -property "$PROP" -tier "$TIER" -repo "$S/repo" -verif "$S/verif" | grep -v "^  \[ok\]" | sed "s#$S/##g"
 rc=$?
 rm -rf "$S"
